@@ -79,6 +79,8 @@ func (jenny Schema) GenerateSchema(context languages.Context, schema *ast.Schema
 		definitions.Set(object.Name, jenny.objectToDefinition(object))
 	})
 
+	// foreign objects are inlined only once: they might refer to each other, or to themselves.
+	inlinedForeignObjects := make(map[string]struct{})
 	for {
 		if jenny.foreignObjects.Len() == 0 {
 			break
@@ -87,7 +89,12 @@ func (jenny Schema) GenerateSchema(context languages.Context, schema *ast.Schema
 		foreignObjects := jenny.foreignObjects
 		jenny.foreignObjects = orderedmap.New[string, ast.Object]()
 
-		foreignObjects.Iterate(func(_ string, foreignObject ast.Object) {
+		foreignObjects.Iterate(func(ref string, foreignObject ast.Object) {
+			if _, alreadyInlined := inlinedForeignObjects[ref]; alreadyInlined {
+				return
+			}
+			inlinedForeignObjects[ref] = struct{}{}
+
 			definitions.Set(foreignObject.Name, jenny.objectToDefinition(foreignObject))
 		})
 	}
